@@ -362,3 +362,71 @@ package ssh
 //@ ensures implies(result1 == nil, 1 <= len(result0) && len(result0) <= 262139)
 //@ ensures implies(result1 != nil, result0 == nil)
 //@ canary ensures result1 != nil
+
+// ---- C25: packet writers, RFC 4253 section 6 framing ----
+// pad8(n): padding that brings n+pad to a multiple of 8 with at least 4 bytes of padding
+//@ pred pad8(n) = ite(8 - n % 8 < 4, 16 - n % 8, 8 - n % 8)
+//@ pred pad16(n) = ite(16 - n % 16 < 4, 32 - n % 16, 16 - n % 16)
+//@ pred be32at(a, o) = a[o]*16777216 + a[o+1]*65536 + a[o+2]*256 + a[o+3]
+
+//@ func maxUInt32
+//@ props C25
+//@ pure
+//@ requires 0 <= a && a <= 4294967295 && 0 <= b && b <= 4294967295
+//@ ensures result == max(a, b)
+
+// AES-GCM: packet_length (in clear) | 16-byte-aligned (padding_length | payload | padding >= 4) | tag
+//@ func (*gcmCipher).writeCipherPacket
+//@ props C25
+//@ requires c.aead != nil && spec.aeadoh(c.aead) == 16 && len(c.iv) == 12 && w != nil && rand != nil
+//@ requires len(packet) <= 262144
+//@ modifies heap
+//@ let L = 1 + len(packet) + pad16(1 + len(packet))
+//@ ensures implies(result == nil, ghost(w, hlen) == old(ghost(w, hlen)) + 4 + L + 16)
+//@ ensures L % 16 == 0
+//@ check_at "c.buf[0] = padding" 4 <= padding && padding <= 19 && length == 1 + len(packet) + padding && length % 16 == 0
+// right after the first Write: the four bytes on the wire are the packet length in clear, big-endian
+//@ check_at "c.buf[0] = padding" ghost(w, hlen) == old(ghost(w, hlen)) + 4 && be32at(ghost(w, hbuf), old(ghost(w, hlen))) == length
+//@ canary ensures result != nil
+
+// stream cipher + MAC: (packet_length | padding_length | payload | padding >= 4), a multiple of 16 (hence of
+// the RFC's 8) not counting the length field in EtM modes, then the MAC over sequence number | packet
+//@ pred aad(s) = ite(s.mac != nil && s.etm, 4, 0)
+//@ func (*streamPacketCipher).writeCipherPacket
+//@ props C25
+//@ requires s.cipher != nil && w != nil && rand != nil && (s.mac == nil || s.mac != w)
+//@ requires ref(s.macResult) != ref(packet) || len(packet) == 0
+//@ modifies heap
+//@ let P = pad16(5 + len(packet) - aad(s))
+//@ ensures implies(len(packet) > 262144, result != nil)
+//@ ensures implies(result == nil, ghost(w, hlen) == old(ghost(w, hlen)) + 5 + len(packet) + P + ite(s.mac != nil, spec.hsize(s.mac), 0))
+//@ ensures 4 <= P && P <= 19 && (5 + len(packet) + P - aad(s)) % 16 == 0
+//@ check_at "padding := s.padding[:paddingLength]" paddingLength >= 4 && paddingLength <= 19
+//@ check_at "padding := s.padding[:paddingLength]" (5 + len(packet) + paddingLength - aad(s)) % 16 == 0
+//@ check_at "padding := s.padding[:paddingLength]" paddingLength == P
+//@ check_at "padding := s.padding[:paddingLength]" length == 1 + len(packet) + paddingLength
+//@ check_at "s.macResult = s.mac.Sum(s.macResult[:0])" ghost(s.mac, hlen) == 4 + 5 + len(packet) + P
+//@ check_at "s.macResult = s.mac.Sum(s.macResult[:0])" ghost(s.mac, hbuf)[0] == seqNum / 16777216 && ghost(s.mac, hbuf)[1] == (seqNum / 65536) % 256 && ghost(s.mac, hbuf)[2] == (seqNum / 256) % 256 && ghost(s.mac, hbuf)[3] == seqNum % 256
+//@ canary ensures result != nil
+
+// chacha20-poly1305@openssh.com: encrypted packet_length | (padding_length | payload | padding >= 4), a multiple of 8 | tag
+//@ func (*chacha20Poly1305Cipher).writeCipherPacket
+//@ props C25
+//@ requires w != nil && rand != nil && ref(c.buf) >= 0 && len(payload) <= 262144
+//@ modifies heap
+//@ let P = pad8(1 + len(payload))
+//@ ensures implies(result == nil, ghost(w, hlen) == old(ghost(w, hlen)) + 4 + 1 + len(payload) + P + 16)
+//@ ensures 4 <= P && P <= 11 && (1 + len(payload) + P) % 8 == 0
+//@ check_at "if cap(c.buf) < totalLength {" padding == P && totalLength == 4 + 1 + len(payload) + P + 16
+//@ canary ensures result != nil
+
+// CBC: (packet_length | padding_length | payload | padding >= 4) a multiple of the block size and of 8, at least 16 bytes, then the MAC
+//@ func (*cbcCipher).writeCipherPacket
+//@ props C25
+//@ requires c.encrypter != nil && (spec.bsize(c.encrypter) == 8 || spec.bsize(c.encrypter) == 16) && w != nil && rand != nil && (c.mac == nil || c.mac != w)
+//@ requires len(packet) <= 262144 && c.macSize <= 1024 && implies(c.mac != nil, c.macSize == spec.hsize(c.mac)) && implies(c.mac == nil, c.macSize == 0)
+//@ modifies heap
+//@ ensures implies(result == nil, (ghost(w, hlen) - old(ghost(w, hlen)) - c.macSize) % max(8, spec.bsize(c.encrypter)) == 0 && ghost(w, hlen) - old(ghost(w, hlen)) - c.macSize >= 16)
+//@ check_at "bufferSize := encLength + c.macSize" paddingLength >= 4 && paddingLength <= 255 && encLength == 5 + len(packet) + paddingLength && encLength % effectiveBlockSize == 0 && encLength >= 16
+//@ check_at "c.packetData = c.mac.Sum(c.packetData)" ghost(c.mac, hlen) == 4 + encLength
+//@ canary ensures result != nil
